@@ -106,6 +106,10 @@ def run(prop, tier, seed):
             pass
         if mod is not None:
             mod.extra(mon, tier, seed)  # e.g. Miri runs, E1 own-key paths
+        if tier == "thorough" and prop != "C12":
+            # the reduced workload of the same monitor under the UB interpreter, several workload seeds in parallel
+            import miri
+            miri.run_multi(prop, [seed * 1000 + i for i in range(8)], 1, mon, "reduced %s workload with the monitors active" % prop)
         extra = {}
         return common.finish(prop, LEVEL.get(prop, "exploration"), tier, seed, mon, t0, rule or "see DESIGN.md",
                              ASSUME_E2, extra)
